@@ -186,3 +186,10 @@ _ADD6 = {
 }
 for _k, _v in _ADD6.items():
     TEXT[_k]["level_text"] += _v
+_ADD7 = {
+ "C03": " The final reduction (e + x1) mod n with e chosen from the boundary digests {0, n-1, n, n+1, 2^256-2, 2^256-1, kn-x1-1, kn-x1} and the result point steered to every special x1, so that the sum lies in [0,n), [n,2n) and [2n, 2^257).",
+ "C13": " Five public keys with one or two leading zero bytes in x, in y or in both through ZA and all five message-level entry points.",
+ "C17": " Scenario S7: valid signatures whose multiplier of the public key (t = 1, 3, 2^13) or of G (s = 1, n-1) is tiny, verified next to ordinary Verify / DerivePublic / SignHashed (start-up branches of the double multiplication with an empty accumulator).",
+}
+for _k, _v in _ADD7.items():
+    TEXT[_k]["level_text"] += _v
